@@ -3,7 +3,7 @@
    pending delay; chains of transitions by induction.  All statements here are over Q. *)
 From Coq Require Import ZArith QArith Qround Qabs Bool List Lia Lqa.
 From Bardolph Require Import Base.PyNum Num.UnitsQ Gen.ParamGen Gen.ColorsysGen Gen.UnitsGen Gen.MachineUnitsGen
-     Num.UnitsFloat Num.Switch Num.UnitsQProofs Num.PathsProofs Num.SwitchProofs.
+     Num.UnitsFloat Num.Switch Num.UnitsQProofs Num.PathsProofs Num.SwitchProofs Num.ColorsysQProofs.
 Import ListNotations.
 Open Scope Q_scope.
 
@@ -407,4 +407,262 @@ Theorem switch_chain_logical_raw_Q : forall (l : list unit_mode) (r : regs Q),
 Proof.
   intros l r Hm Hl V.
   destruct (chain_from_steps no_rgb steps_without_rgb l r Hm Hl V) as [_ H]. exact H.
+Qed.
+
+(* ---------------------------------------------------------------- transitions involving rgb *)
+
+Lemma rgb_to_raw_Q_sent : forall c : color4 Q,
+  param_color_Q (rgb_to_raw_Q c) =
+  let '(h, s, v) := rgb_to_hsv_Q (c0 c / (100 # 1)) (c1 c / (100 # 1)) (c2 c / (100 # 1)) in
+  mkcolor (param_16_Q (h * (65535 # 1))) (param_16_Q (s * (65535 # 1))) (param_16_Q (v * (65535 # 1)))
+          (param_16_Q (c3 c)).
+Proof.
+  intro c. unfold rgb_to_raw_Q.
+  destruct (rgb_to_hsv_Q _ _ _) as [[h s] v].
+  unfold param_color_Q, cmap; simpl.
+  change (py_round_Q (py_max_Q (z2q 0) (py_min_Q (h * (65535 # 1)) (z2q 65535)))) with (param_16_Q (h * (65535 # 1))).
+  change (py_round_Q (py_max_Q (z2q 0) (py_min_Q (s * (65535 # 1)) (z2q 65535)))) with (param_16_Q (s * (65535 # 1))).
+  change (py_round_Q (py_max_Q (z2q 0) (py_min_Q (v * (65535 # 1)) (z2q 65535)))) with (param_16_Q (v * (65535 # 1))).
+  rewrite !param_16_Q_idem. reflexivity.
+Qed.
+
+Lemma in01_pct : forall x, 0 <= x -> x <= 100 -> in01 (x / (100 # 1)).
+Proof. intros x H0 H1. unfold in01. qconst. lra. Qed.
+
+Lemma in01_raw : forall x, 0 <= x -> x <= 65535 -> in01 (x / (65535 # 1)).
+Proof. intros x H0 H1. unfold in01. qconst. lra. Qed.
+
+Lemma in01_deg : forall x, 0 <= x -> x <= 360 -> in01 (x / (360 # 1)).
+Proof. intros x H0 H1. unfold in01. qconst. lra. Qed.
+
+Lemma param_16_Q_zero : forall q, q == 0 -> param_16_Q q = 0%Z.
+Proof. intros q H. rewrite (param_16_Q_comp q (inject_Z 0)) by (rewrite H; reflexivity). apply param_16_Q_int. lia. Qed.
+
+Lemma step_rgb_to_raw : step_ok RGB RAW.
+Proof.
+  intros r Hm V. split; [| split].
+  - destruct r as [h s b k rd gr bl d t m]. simpl in Hm. subst m.
+    destruct V as [Vk [Vd [Vt _]]]. simpl in *.
+    unfold switch_Q, g_switch, valid_regs; simpl. unfold_regs.
+    unfold rgb_to_raw_Q; simpl.
+    destruct (rgb_to_hsv_Q _ _ _) as [[h' s'] v']. simpl.
+    assert (R : forall x, 0 <= z2q (py_round_Q (py_max_Q (z2q 0) (py_min_Q x (z2q 65535)))) /\
+                          z2q (py_round_Q (py_max_Q (z2q 0) (py_min_Q x (z2q 65535)))) <= 65535).
+    { intro x. pose proof (param_16_Q_range x) as [A B]. unfold param_16_Q in A, B. unfold z2q at 1 3.
+      change 0 with (inject_Z 0). change 65535 with (inject_Z 65535). rewrite <- !Zle_Qle. split; assumption. }
+    destruct (R (h' * (65535 # 1))) as [A1 A2]. destruct (R (s' * (65535 # 1))) as [B1 B2].
+    destruct (R (v' * (65535 # 1))) as [C1 C2].
+    unfold time_raw_Q. repeat split; try assumption; lra.
+  - rewrite switch_to_raw_preserves_Q. apply sent_rel_refl.
+  - left. apply switch_to_raw_delay_Q. rewrite Hm. discriminate.
+Qed.
+
+Lemma step_rgb_to_logical : step_ok RGB LOGICAL.
+Proof.
+  intros r Hm V.
+  destruct r as [h0 s0 b0 k rd gr bl d t m]. simpl in Hm. subst m.
+  destruct V as [Vk [Vd [Vt [Vr0 [Vr1 [Vg0 [Vg1 [Vb0 Vb1]]]]]]]]. simpl in *.
+  pose proof (rgb_to_hsv_Q_range _ _ _ (in01_pct rd Vr0 Vr1) (in01_pct gr Vg0 Vg1) (in01_pct bl Vb0 Vb1)) as Rg.
+  rewrite !set_transmits_Q_eq.
+  unfold switch_Q, g_switch; simpl. unfold_regs.
+  unfold as_raw_color_Q, g_as_raw_color, as_raw_time_Q, g_as_raw_time.
+  rewrite rgb_to_raw_Q_sent. simpl c0; simpl c1; simpl c2; simpl c3.
+  unfold valid_regs, sent_rel, sent_color, delay_ms, pending_wait_Q; simpl.
+  unfold rgb_to_logical_Q; simpl.
+  destruct (rgb_to_hsv_Q (rd / (100 # 1)) (gr / (100 # 1)) (bl / (100 # 1))) as [[h s] v].
+  destruct Rg as [[Hh0 Hh1] [[Hs0 Hs1] [Hv0 Hv1]]]. simpl.
+  split; [| split].
+  - repeat split; try assumption; lra.
+  - split; [| reflexivity].
+    apply same_hsbk_colour. unfold same_hsbk, param_color_Q, cmap; simpl.
+    split; [| split; [| split]].
+    + change (hue_equiv (param_16_Q (hue_formula (h * (360 # 1)))) (param_16_Q (h * (65535 # 1)))).
+      apply hue_back; [lra | lra | field].
+    + apply pct_back; [lra | lra | field].
+    + apply pct_back; [lra | lra | field].
+    + reflexivity.
+  - apply delay_close_refl.
+Qed.
+
+Lemma dur_back : forall d, 0 <= d -> param_32_Q (time_raw_Q (time_logical_Q d)) = param_32_Q d.
+Proof.
+  intros d Vd. pose proof EPSILON_Q_val as He. unfold time_logical_Q, time_raw_Q.
+  match goal with |- context [if ?c then _ else _] => destruct c eqn:E end.
+  - apply andb_prop in E. destruct E as [E1 E2]. apply Qltb_true in E1, E2.
+    rewrite (param_32_Q_comp ((0 # 1) * (1000 # 1)) (inject_Z 0)) by (change (inject_Z 0) with 0; lra).
+    rewrite param_32_Q_int by lia. symmetry. apply param_32_Q_small; lra.
+  - apply param_32_Q_comp. field.
+Qed.
+
+Definition wait_ms (m : unit_mode) (t : Q) : Q :=
+  match wait_seconds_Q m t with None => 0 | Some s => s * 1000 end.
+
+Lemma delay_ms_eq : forall r, delay_ms r = wait_ms (r_mode r) (r_time r).
+Proof. reflexivity. Qed.
+
+Lemma delay_back : forall m t, m <> RAW -> 0 <= t ->
+  delay_close (wait_ms m (time_logical_Q t)) (wait_ms RAW t).
+Proof.
+  intros m t Hm Vt. pose proof EPSILON_Q_val as He.
+  assert (W : wait_ms m (time_logical_Q t) = wait_ms LOGICAL (time_logical_Q t)).
+  { destruct m; try reflexivity. contradiction Hm; reflexivity. }
+  rewrite W. unfold delay_close, wait_ms, wait_seconds_Q.
+  unfold time_logical_Q, z2q. change (inject_Z 0) with 0. change (inject_Z 1000) with (1000 # 1).
+  destruct (Qltb (Qopp EPSILON_Q) t && Qltb t EPSILON_Q)%bool eqn:E.
+  - apply andb_prop in E. destruct E as [E1 E2]. apply Qltb_true in E1, E2.
+    assert (Z0 : Qltb 0 (0 # 1) = false) by reflexivity. rewrite Z0.
+    destruct (Qltb 0 t) eqn:E3.
+    + right. split; [reflexivity |]. apply Qltb_true in E3. split; [| rewrite <- He]; field_simplify; lra.
+    + left. reflexivity.
+  - destruct (Qltb 0 t) eqn:E3.
+    + apply Qltb_true in E3.
+      assert (P : Qltb 0 (t / (1000 # 1)) = true).
+      { apply Qltb_true. apply Qlt_shift_div_l; lra. }
+      rewrite P. left. reflexivity.
+    + apply Qltb_false in E3.
+      assert (P : Qltb 0 (t / (1000 # 1)) = false).
+      { apply Qltb_false. apply Qle_shift_div_r; lra. }
+      rewrite P. left. reflexivity.
+Qed.
+
+Lemma time_logical_Q_nonneg : forall x, 0 <= x -> 0 <= time_logical_Q x.
+Proof.
+  intros x Hx. unfold time_logical_Q.
+  match goal with |- context [if ?c then _ else _] => destruct c end; [lra | qconst; lra].
+Qed.
+
+Lemma hue_equiv_0_top : hue_equiv 0 65535.
+Proof. right; left; split; reflexivity. Qed.
+
+(* what rgb_to_raw (i.e. `set` in rgb units) sends for an rgb colour that came from an hsv triple *)
+Lemma sent_after_to_rgb : forall h s v (R G B k : Q),
+  in01 h -> in01 s -> in01 v ->
+  triple_eq (R / (100 # 1), G / (100 # 1), B / (100 # 1)) (hsv_to_rgb_Q h s v) ->
+  same_colour (param_color_Q (rgb_to_raw_Q (mkcolor R G B k)))
+              (mkcolor (param_16_Q (h * (65535 # 1))) (param_16_Q (s * (65535 # 1)))
+                       (param_16_Q (v * (65535 # 1))) (param_16_Q k)).
+Proof.
+  intros h s v R G B k Hh Hs Hv T.
+  rewrite rgb_to_raw_Q_sent. simpl c0; simpl c1; simpl c2; simpl c3.
+  pose proof (rgb_hsv_roundtrip h s v _ _ _ Hh Hs Hv T) as RT.
+  destruct (rgb_to_hsv_Q (R / (100 # 1)) (G / (100 # 1)) (B / (100 # 1))) as [[h' s'] v'].
+  destruct RT as [Rv [Rdeg Rgen]].
+  destruct Hh as [Hh0 Hh1]. destruct Hs as [Hs0 Hs1]. destruct Hv as [Hv0 Hv1].
+  unfold same_colour; simpl. split; [reflexivity |].
+  assert (Ev : param_16_Q (v' * (65535 # 1)) = param_16_Q (v * (65535 # 1))) by (apply param_16_Q_comp; rewrite Rv; reflexivity).
+  destruct (Qeq_dec v 0) as [Zv | Nv].
+  - (* black *)
+    left. split; [rewrite Ev |]; apply param_16_Q_zero; rewrite Zv; ring.
+  - destruct (Qeq_dec s 0) as [Zs | Ns].
+    + (* grey *)
+      right; left. destruct (Rdeg (or_introl Zs)) as [_ Ds].
+      split; [apply param_16_Q_zero; rewrite Ds; ring |].
+      split; [apply param_16_Q_zero; rewrite Zs; ring | exact Ev].
+    + assert (Ps : 0 < s) by (destruct (Qlt_le_dec 0 s); [assumption | exfalso; apply Ns; lra]).
+      assert (Pv : 0 < v) by (destruct (Qlt_le_dec 0 v); [assumption | exfalso; apply Nv; lra]).
+      destruct (Rgen Ps Pv) as [Es Eh].
+      right; right. split; [| split; [apply param_16_Q_comp; rewrite Es; reflexivity | exact Ev]].
+      destruct Eh as [Eh | [Eh1 Eh0]].
+      * left. apply param_16_Q_comp. rewrite Eh. reflexivity.
+      * (* h = 1: the hue comes back as 0, the same angle *)
+        rewrite (param_16_Q_zero (h' * (65535 # 1))) by (rewrite Eh0; ring).
+        rewrite (param_16_Q_comp (h * (65535 # 1)) (inject_Z 65535)) by (rewrite Eh1; reflexivity).
+        rewrite param_16_Q_int by lia. apply hue_equiv_0_top.
+Qed.
+
+Lemma same_colour_sym : forall a b, same_colour a b -> same_colour b a.
+Proof.
+  intros a b [K H]. split; [congruence |].
+  destruct H as [[A1 A2] | [[A1 [A2 A3]] | [A1 [A2 A3]]]].
+  - left; auto.
+  - right; left; repeat split; congruence.
+  - right; right. repeat split; try congruence. apply hue_equiv_sym; exact A1.
+Qed.
+
+Lemma step_raw_to_rgb : step_ok RAW RGB.
+Proof.
+  intros r Hm V.
+  destruct r as [h s b k rd gr bl d t m]. simpl in Hm. subst m.
+  destruct V as [Vk [Vd [Vt [Vh0 [Vh1 [Vs0 [Vs1 [Vb0 Vb1]]]]]]]]. simpl in *.
+  pose proof (in01_raw h Vh0 Vh1) as Ih. pose proof (in01_raw s Vs0 Vs1) as Is. pose proof (in01_raw b Vb0 Vb1) as Ib.
+  pose proof (hsv_to_rgb_Q_range _ _ _ Ih Is Ib) as Rg.
+  rewrite !set_transmits_Q_eq. rewrite !delay_ms_eq.
+  unfold switch_Q, g_switch; simpl. unfold_regs.
+  unfold as_raw_color_Q, g_as_raw_color, as_raw_time_Q, g_as_raw_time.
+  unfold valid_regs, sent_rel, sent_color; simpl.
+  unfold raw_to_rgb_Q; simpl.
+  pose proof (sent_after_to_rgb (h / (65535 # 1)) (s / (65535 # 1)) (b / (65535 # 1))) as SA.
+  destruct (hsv_to_rgb_Q (h / (65535 # 1)) (s / (65535 # 1)) (b / (65535 # 1))) as [[R G] B].
+  destruct Rg as [[R0 R1] [[G0 G1] [B0 B1]]]. simpl.
+  split; [| split].
+  - repeat split; try assumption; try (apply time_logical_Q_nonneg; assumption); lra.
+  - split; [| apply dur_back; exact Vd].
+    eapply same_colour_trans.
+    + apply (SA (R * (100 # 1)) (G * (100 # 1)) (B * (100 # 1)) k Ih Is Ib).
+      unfold triple_eq; simpl. repeat split; field.
+    + unfold param_color_Q, cmap; simpl.
+      split; [reflexivity |]. right; right. simpl.
+      repeat split; try (apply param_16_Q_comp; field). left. apply param_16_Q_comp. field.
+  - apply delay_back; [discriminate | exact Vt].
+Qed.
+
+Lemma step_logical_to_rgb : step_ok LOGICAL RGB.
+Proof.
+  intros r Hm V.
+  destruct r as [h s b k rd gr bl d t m]. simpl in Hm. subst m.
+  destruct V as [Vk [Vd [Vt [Vh0 [Vh1 [Vs0 [Vs1 [Vb0 Vb1]]]]]]]]. simpl in *.
+  pose proof (in01_deg h Vh0 Vh1) as Ih. pose proof (in01_pct s Vs0 Vs1) as Is. pose proof (in01_pct b Vb0 Vb1) as Ib.
+  pose proof (hsv_to_rgb_Q_range _ _ _ Ih Is Ib) as Rg.
+  rewrite !set_transmits_Q_eq. rewrite !delay_ms_eq.
+  unfold switch_Q, g_switch; simpl. unfold_regs.
+  unfold as_raw_color_Q, g_as_raw_color, as_raw_time_Q, g_as_raw_time.
+  unfold valid_regs, sent_rel, sent_color; simpl.
+  unfold logical_to_rgb_Q; simpl.
+  pose proof (sent_after_to_rgb (h / (360 # 1)) (s / (100 # 1)) (b / (100 # 1))) as SA.
+  destruct (hsv_to_rgb_Q (h / (360 # 1)) (s / (100 # 1)) (b / (100 # 1))) as [[R G] B].
+  destruct Rg as [[R0 R1] [[G0 G1] [B0 B1]]]. simpl.
+  split; [| split].
+  - repeat split; try assumption; lra.
+  - split; [| reflexivity].
+    eapply same_colour_trans.
+    + apply (SA (R * (100 # 1)) (G * (100 # 1)) (B * (100 # 1)) k Ih Is Ib).
+      unfold triple_eq; simpl. repeat split; field.
+    + (* the logical registers themselves send the same integers *)
+      apply same_colour_sym. apply same_hsbk_colour.
+      unfold same_hsbk, param_color_Q, cmap; simpl.
+      split; [| split; [| split]].
+      * change (hue_equiv (param_16_Q (hue_formula h)) (param_16_Q (h / (360 # 1) * (65535 # 1)))).
+        apply hue_back; [qconst; lra | qconst; lra | field].
+      * apply pct_back; [qconst; lra | qconst; lra | field].
+      * apply pct_back; [qconst; lra | qconst; lra | field].
+      * reflexivity.
+  - apply delay_close_refl.
+Qed.
+
+(* ---------------------------------------------------------------- all six, and all chains *)
+
+Theorem switch_preserves_transmission_Q : forall from to, step_ok from to.
+Proof.
+  intros from to. destruct from, to.
+  - apply step_same.
+  - apply step_logical_to_raw.
+  - apply step_logical_to_rgb.
+  - apply step_raw_to_logical.
+  - apply step_same.
+  - apply step_raw_to_rgb.
+  - apply step_rgb_to_logical.
+  - apply step_rgb_to_raw.
+  - apply step_same.
+Qed.
+
+Theorem switch_preserves_transmission_chain : forall (l : list unit_mode) (r : regs Q),
+  valid_regs r ->
+  valid_regs (switch_chain_Q r l) /\
+  sent_rel (set_transmits_Q (switch_chain_Q r l)) (set_transmits_Q r) /\
+  delay_close (delay_ms (switch_chain_Q r l)) (delay_ms r).
+Proof.
+  intros l r V.
+  apply (chain_from_steps (fun _ => True)); auto.
+  - intros. apply switch_preserves_transmission_Q.
+  - apply Forall_forall. auto.
 Qed.
